@@ -1,7 +1,7 @@
 """C01 - no input crashes / corrupts memory: memory-safety clauses decidable from the code shape."""
 from ..report import Check
 from ..callgraph import CallGraph
-from ..rules import stack, nullness, progress, driver
+from ..rules import stack, nullness, progress, driver, scopes
 
 CONFIGS = [("doc", "UTAP::DocumentBuilder"), ("query", "UTAP::TigaPropertyBuilder")]
 
@@ -30,6 +30,7 @@ def run(F, G, tier, seed):
     nullness.run_findderef(chk, F, CG, nullness.PARSE_ENTRIES)
     nullness.run_datacast(chk, F)
     nullness.run_countloop(chk, F, G)
+    scopes.part_context(chk, F, G)
     nullness.run_nullmember(chk, F, ("UTAP::TypeChecker",))
     progress.run(chk, F, CG)
     chk.assume("functions without a body in the facts (libstdc++, libxml2, libc) raise no UTAP::TypeException")
